@@ -80,6 +80,8 @@ def generate(rng, tier):
             if c2 is not None:
                 c = c2; c[1] = c[1] + '-shadow'
         out.append(c)
+    from . import rare
+    out += rare.impl_cases()
     from .c11 import gen_case
     out += [gen_case(rng, 'clash%d' % i) for i in range(n // 6)]
     from .. import o4exec
@@ -123,6 +125,7 @@ def judge(c, impl, model):
     cid = c[1]
     info = {'dist': []}
     fs = k_compare(ID, c, impl, model)
+    fs += must_reject_findings(ID, c, impl)
     cls = outcome_class(impl.get('o3'))
     count(info, 'impl-' + cls)
     must_reject = None
